@@ -294,6 +294,74 @@ def walk_leaves(node):
     return out
 
 
+def filler(k):
+    """k bytes of code without net effect (k = 0 or k >= 2)"""
+    if k == 0:
+        return b''
+    if k == 2:
+        return op('NOT') + op('NOT')
+    if k <= 258:
+        return op('PUSH1') + bytes([k - 3]) + b'\x5a' * (k - 3) + op('POP0')
+    return op('PUSH2') + (k - 4).to_bytes(2, 'big') + b'\x5a' * (k - 4) + op('POP0')
+
+
+def sized_leaf(i, size):
+    base = leaf_script(i)
+    return filler(size - len(base)) + base
+
+
+LEAF_SIZES = (127, 128, 129, 254, 255, 256, 257, 258, 259, 260, 1023, 1024, 1025, 4096)
+
+
+def leaf_size_case(ctx, case):
+    """committed leaf scripts of every length around the push-size boundaries, in each leaf position of small trees"""
+    size, n, pos = case
+    codes = [sized_leaf(i, size) if i == pos else leaf_script(i) for i in range(n)]
+    assert len(codes[pos]) == size
+    ctx.state(('size', size, n, pos))
+    cnt = 0
+
+    def honest(what, unl, lock, i):
+        nonlocal cnt
+        cnt += 1
+        v, log = run_auth([unl, lock])
+        ctx.ran()
+        ctx.trans()
+        ctx.outcome('sized:%s' % v)
+        if log != [bytes([i])] or v is not own_verdict(i):
+            ctx.violation({'clause': 'a committed leaf of any size can be run', 'via': what},
+                          f'{what}: leaf size {size} at {pos} of {n}, running leaf {i}: verdict {v!r} recorder {log}')
+
+    # tree classes
+    try:
+        leaves = [T.ScriptLeaf.from_code(c) for c in codes]
+        node = leaves[0] if n == 1 else None
+        if n >= 2:
+            node = T.ScriptNode(leaves[0], leaves[1])
+            for l in leaves[2:]:
+                node = T.ScriptNode(node, l)
+            lock = node.locking_script().bytes
+            for i, l in enumerate(leaves):
+                honest('tree classes', l.unlocking_script().bytes, lock, i)
+            t2 = T.ScriptNode.unpack(node.pack())
+            if t2.root() != node.root():
+                ctx.violation({'clause': 'pack/unpack preserves root and unlocking scripts', 'via': 'sized leaf'}, f'size {size}')
+    except BaseException as e:
+        ctx.violation({'clause': 'a committed leaf of any size can be run', 'via': 'tree classes', 'how': 'raises'},
+                      f'leaf size {size} at {pos} of {n}: {e!r}')
+    for name, mk in (('prioritized', T.make_merklized_script_prioritized), ('balanced', T.make_merklized_script_balanced)):
+        env.Rand.reset(b'c04-size')
+        try:
+            lock, unlocks = mk([T.Script.from_bytes(c) for c in codes])
+        except BaseException as e:
+            ctx.violation({'clause': 'a committed leaf of any size can be run', 'via': 'make_merklized_script_' + name, 'how': 'raises'},
+                          f'leaf size {size} at {pos} of {n}: {e!r}')
+            continue
+        for i, u in enumerate(unlocks[:n]):
+            honest('make_merklized_script_' + name, u.bytes, lock.bytes, i)
+    ctx.evaluations += max(cnt - 1, 0)
+
+
 def builder_case(ctx, n):
     cnt = 0
     srcs = lambda: [T.Script.from_bytes(leaf_script(i)) for i in range(n)]
@@ -378,6 +446,8 @@ def blocks(tier, seed):
         Block('all_tree_shapes', cases, shape_case,
               'all binary tree shapes with 2..%d leaves (%d shapes), every leaf; every proof corruption for shapes <= %d leaves'
               % (nmax, len(cases), cmax), nshards=min(len(cases), 128)),
+        Block('leaf_sizes', [(sz, n, pos) for sz in LEAF_SIZES for n in (1, 2, 3) for pos in range(n)], leaf_size_case,
+              'leaf script lengths %s x trees of 1..3 leaves x position, through the tree classes and both builders' % (LEAF_SIZES,), nshards=32),
         Block('builders', list(range(1, bmax + 1)), builder_case,
               'prioritized / balanced tree and merklized-script builders for every leaf count 1..%d, every leaf incl. fillers' % bmax,
               nshards=bmax),
